@@ -205,7 +205,7 @@ def main():
                 else:
                     sig = common.signature(v)
                     if sig not in new_viol:
-                        new_viol[sig] = (plans[i], r, v)
+                        new_viol[sig] = (v.get("subplan") or plans[i], r, v)
             if new_viol and len(new_viol) >= 3:
                 break
         rc = 0
